@@ -232,6 +232,9 @@ Definition is_mp (r : relation) : bool :=
   let tt := tag_find (r_tags r) "type" in
   negb (String.eqb tt "route") && (String.eqb tt "multipolygon" || String.eqb tt "boundary").
 Definition is_route (r : relation) : bool := String.eqb (tag_find (r_tags r) "type") "route".
+(* Relation.Polygon() of polygon.go *)
+Definition relation_area (r : relation) : bool :=
+  let tt := tag_find (r_tags r) "type" in String.eqb tt "multipolygon" || String.eqb tt "boundary".
 
 (* the way a multipolygon member stands for: the way of the data, else the nodes annotated on the
    member (a way without tags) *)
